@@ -142,21 +142,25 @@ static void RunTraversal(vf::BS & bs)
    for (int i=0; i<3; i++) allPaths.push_back(w.c[i]->root);      // (whether the asking session's own node is visited depends on its reflect-to-self parameter: the observer's own node is not part of the comparison)
    for (int i=0; i<3; i++)
    {
-      const uint32 nn = bs.u8()%6; MessageRef m = GetMessageFromPool(PR_COMMAND_SETDATA); MessageRef d = GetMessageFromPool(1); std::string l = "c"+std::to_string(i)+" publishes";
+      const uint32 nn = bs.u8()%6; MessageRef m = GetMessageFromPool(PR_COMMAND_SETDATA); std::string l = "c"+std::to_string(i)+" publishes";
       for (uint32 k=0; k<nn; k++)
       {
          std::string p = NN[bs.u8()%8]; const uint32 depth = bs.u8()%3; for (uint32 dd=0; dd<depth; dd++) {p += "/"; p += NN[bs.u8()%8];}
+         MessageRef d = GetMessageFromPool(1); {const uint8_t vb = bs.u8(); if (vb%4) (void) d()->AddInt32("v", vb%4-1);}     /* payloads for the filtered keys to tell apart: v = 0..2, or no v at all */
          (void) m()->AddMessage(p.c_str(), d); l += " "+p;
          std::string acc = w.c[i]->root; size_t st = 0; while(st <= p.size()) {size_t sl = p.find('/', st); if (sl == std::string::npos) sl = p.size(); acc += "/"+p.substr(st, sl-st); allPaths.push_back(acc); st = sl+1;}
       }
       if (nn) {(void) w.Send(i, m); H(l);}
    }
    w.Pump();
+   std::map<std::string, NodeInfo> tree; {HSession * any = w.AnySession(); if (any) WalkTree(any->Root(), tree);}     // the payloads as the server holds them (nodes created on the way to a published node hold an empty Message)
+   bool filteredKeys = false, laterKeyDecided = false;
    static const char * const CL[] = {"*", "a", "b", "ab", "a*", "?", "[ab]", "(a|b)", "a,b", "~a", "<1-5>", "\\*", "a\\,b", "a\\*", "1", "10", "zz", "1,2", "?*"};
    const uint32 nq = 1+bs.u8()%4; bool sameDepth = false, mixedLiteralWildcard = false; uint64_t h = 9;
    for (uint32 qn=0; qn<nq; qn++)
    {
-      MessageRef g = GetMessageFromPool(PR_COMMAND_GETDATA); PathMatcher pm; std::string desc; std::vector<size_t> depths;
+      MessageRef g = GetMessageFromPool(PR_COMMAND_GETDATA); PathMatcher pm; std::string desc; std::vector<size_t> depths; std::vector<std::pair<std::string, int> > keys;     // (pattern, v the key's filter asks for or -1)
+      const bool withFilters = (bs.u8()%3 == 0);
       const uint32 nk = 1+bs.u8()%4;
       for (uint32 k=0; k<nk; k++)
       {
@@ -166,9 +170,17 @@ static void RunTraversal(vf::BS & bs)
          std::string pat = "/"+hostC+"/"+idC; bool lit = false, wild = false;
          for (uint32 dd=0; dd<depth; dd++) {const char * cl = CL[bs.u8()%19]; pat += "/"; pat += cl; if (CanWildcardStringMatchMultipleValues(cl)) wild = true; else lit = true;}
          if (lit && wild) mixedLiteralWildcard = true;
-         if (desc.find("["+pat+"] ") != std::string::npos) continue;
+         {bool seen = false; for (size_t q=0; q<keys.size(); q++) if (keys[q].first == pat) seen = true; if (seen) continue;}     // one key per pattern string (a repeated key only replaces its own filter)
          (void) g()->AddString(PR_NAME_KEYS, pat.c_str());
-         if (pm.PutPathString(pat.c_str()+1, ConstQueryFilterRef()).IsError()) vf::Fail("PutPathString failed for [%s]", pat.c_str());     // PathMatcher wants the pattern without its leading slash
+         int fv = -1; ConstQueryFilterRef fref;
+         if (withFilters)
+         {
+            // one filter Message per key: an archived filter, or an empty Message for a key without one (what the server itself does for unfiltered subscriptions)
+            const uint8_t fb = bs.u8(); if (fb%2) {fv = (fb>>1)%3; Int32QueryFilter f("v", Int32QueryFilter::OP_EQUAL_TO, fv); (void) g()->AddArchiveMessage(PR_NAME_FILTERS, f); fref.SetRef(new Int32QueryFilter("v", Int32QueryFilter::OP_EQUAL_TO, fv)); filteredKeys = true; pat += " if v=="+std::to_string(fv);}
+            else (void) g()->AddMessage(PR_NAME_FILTERS, GetMessageFromPool());
+         }
+         keys.push_back(std::make_pair(pat.substr(0, pat.find(' ')), fv));
+         if (pm.PutPathString(keys.back().first.c_str()+1, fref).IsError()) vf::Fail("PutPathString failed for [%s]", pat.c_str());     // PathMatcher wants the pattern without its leading slash
          desc += "["+pat+"] "; depths.push_back(2+depth);
       }
       for (size_t a=0; a<depths.size(); a++) for (size_t b=a+1; b<depths.size(); b++) if (depths[a] == depths[b]) sameDepth = true;
@@ -178,7 +190,24 @@ static void RunTraversal(vf::BS & bs)
       w.Pump();
       if (dup) vf::Fail("multi-key GETDATA %sreported node %s twice: history [%s]", desc.c_str(), dupPath.c_str(), g_hist.c_str());
       gotPaths.erase(w.c[3]->root);
-      std::set<std::string> want; for (size_t i=0; i<allPaths.size(); i++) if (pm.MatchesPath(allPaths[i].c_str(), NULL, NULL)) want.insert(allPaths[i]);
+      std::set<std::string> want;
+      for (size_t i=0; i<allPaths.size(); i++)
+      {
+         std::map<std::string, NodeInfo>::const_iterator tn = tree.find(allPaths[i]); const Message * payload = ((tn != tree.end())&&(tn->second.data())) ? tn->second.data() : NULL;
+         const bool sel = pm.MatchesPath(allPaths[i].c_str(), withFilters ? payload : NULL, NULL); if (sel) want.insert(allPaths[i]);
+         if (withFilters)
+         {
+            // key by key, clause by clause, each key with its own filter: the path test must say the same
+            bool ind = false; int firstPathMatch = -1;
+            for (size_t k=0; k<keys.size(); k++) if (PathMatch(keys[k].first, allPaths[i]))
+            {
+               if (firstPathMatch < 0) firstPathMatch = (int)k;
+               const bool fok = (keys[k].second < 0)||((payload)&&(payload->HasName("v", B_INT32_TYPE))&&(payload->GetInt32("v") == keys[k].second));
+               if (fok) {ind = true; if ((int)k != firstPathMatch) laterKeyDecided = true; break;}
+            }
+            if (ind != sel) vf::Fail("PathMatcher::MatchesPath says %s for node %s under the keys %s; key by key (path, then that key's filter) it is %s: history [%s]", sel ? "yes" : "no", allPaths[i].c_str(), desc.c_str(), ind ? "selected" : "not selected", g_hist.c_str());
+         }
+      }
       if (want != gotPaths)
       {
          std::string d;
@@ -188,7 +217,7 @@ static void RunTraversal(vf::BS & bs)
       }
    }
    w.Stop();
-   vf::Count("mode_traversal"); vf::Count("traversals", nq); if (sameDepth) vf::Count("case_two_keys_of_equal_depth"); if (mixedLiteralWildcard) vf::Count("case_key_mixing_literal_and_wildcard_levels");
+   vf::Count("mode_traversal"); vf::Count("traversals", nq); if (sameDepth) vf::Count("case_two_keys_of_equal_depth"); if (filteredKeys) vf::Count("case_traversal_with_filtered_keys"); if (laterKeyDecided) vf::Count("case_node_selected_by_a_later_key_after_an_earlier_keys_filter_refused"); if (mixedLiteralWildcard) vf::Count("case_key_mixing_literal_and_wildcard_levels");
    if ((sameDepth)||(mixedLiteralWildcard)) {vf::NonTrivial(h); if (vf::WantSample()) vf::Sample(g_hist);}
 }
 
